@@ -91,8 +91,12 @@ def r1_errors_carry_location(ctx: Ctx) -> None:
     ctx.floor("statement_ast_sites", 5)
     # message construction
     ne = repo.func("a816.parse.nodes", "NodeError.__str__")
-    txt = unparse(ne.node)
-    ctx.check("position.file.filename" in txt and "position.line" in txt and "position.get_line()" in txt, "NodeError.__str__", "prints file name, line number and the line's text")
+    # every position read in the message, through whatever locals hold the token / position
+    from ..match import canon as _canon17
+
+    reads = {_canon17(ne.node, n) for n in ast.walk(ne.node) if isinstance(n, (ast.Attribute, ast.Call))}
+    pos = "self.file_info.position"
+    ctx.check(f"{pos}.file.filename" in reads and f"{pos}.line" in reads and f"{pos}.get_line()" in reads, "NodeError.__str__", "prints file name, line number and the line's text")
     pa = repo.func("a816.parse.mzparser", "MZParser.parse_as_ast")
     from ..match import canon as _canon17
 
